@@ -1,6 +1,10 @@
 import Girc.Proofs.TransTags
 import Girc.Proofs.TransParseTags
 import Girc.Proofs.TransSource
+import Girc.Proofs.TransParseEvent
+import Girc.Proofs.TransTagsBytes
+import Girc.Proofs.TransEventBytes
+import Girc.Proofs.TransEventHelpers
 /-
   Tie (TieWire): the function bodies regenerated from the Go source on every run (Girc/Gen/Funcs.lean, written by
   tools/extract/translate.go) equal the hand-written models the property theorems of C01, C02 and C03 are about, for ALL inputs.
@@ -48,5 +52,112 @@ theorem tie_Source_writeTo : ∀ (s : Source) (buf : Bytes), Fn.Source_writeTo (
   Proofs.Trans.Source_writeTo_eq
 theorem tie_Source_writeTo_nil : ∀ buf : Bytes, Fn.Source_writeTo none buf = .error .nilDeref := Proofs.Trans.Source_writeTo_nil
 example : Fn.Source_writeTo (some ⟨[0x6E], [0x75], [0x68]⟩) [0x3A] = .ok [0x3A, 0x6E, 0x21, 0x75, 0x40, 0x68] := by rfl
+
+theorem tie_Source_Bytes : ∀ s : Source, Fn.Source_Bytes (some s) = .ok (sourceBytes s) := Proofs.Trans.Source_Bytes_eq
+theorem tie_Source_Bytes_nil : Fn.Source_Bytes none = .error .nilDeref := Proofs.Trans.Source_Bytes_nil
+theorem tie_Source_String : ∀ s : Source, Fn.Source_String (some s) = .ok (sourceBytes s) := Proofs.Trans.Source_String_eq
+theorem tie_Source_String_nil : Fn.Source_String none = .error .nilDeref := Proofs.Trans.Source_String_nil
+example : Fn.Source_Bytes (some ⟨[0x6E], [0x75], [0x68]⟩) = .ok [0x6E, 0x21, 0x75, 0x40, 0x68] := by rfl
+example : Fn.Source_String (some ⟨[0x6E], [], [0x68]⟩) = .ok [0x6E, 0x40, 0x68] := by rfl
+
+/-- `ParseEvent` (the server-time block writes only `Event.Timestamp`, outside the model, and is erased by the
+    translator): the regenerated parser never panics and equals the list-functional `parseEvent`. -/
+theorem tie_ParseEvent : ∀ raw : Bytes, Fn.ParseEvent raw = .ok (parseEvent raw) := Proofs.Trans.ParseEvent_eq
+-- "@a=b :n!u@h PRIVMSG #c :hi there\r\n"
+example : Fn.ParseEvent [0x40, 0x61, 0x3D, 0x62, 0x20, 0x3A, 0x6E, 0x21, 0x75, 0x40, 0x68, 0x20, 0x50, 0x52, 0x49, 0x56, 0x4D, 0x53,
+    0x47, 0x20, 0x23, 0x63, 0x20, 0x3A, 0x68, 0x69, 0x20, 0x74, 0x68, 0x65, 0x72, 0x65, 0x0D, 0x0A] =
+    .ok (some { tags := some [([0x61], [0x62])], source := some ⟨[0x6E], [0x75], [0x68]⟩,
+                command := [0x50, 0x52, 0x49, 0x56, 0x4D, 0x53, 0x47],
+                params := [[0x23, 0x63], [0x68, 0x69, 0x20, 0x74, 0x68, 0x65, 0x72, 0x65]] }) := by rfl
+example : Fn.ParseEvent [0x3A, 0x20, 0x78] = .ok none := by rfl
+
+/-! ### cap_tags.go, serialiser side
+
+`Tags.Bytes` ranges over the map (`for tagName := range t`, order unspecified in Go) and sorts the keys with
+`sort.Strings` (trusted table entry ↦ `sortStrings = sortBytes`).  The translation visits the keys in the order of the
+association list that represents the map; `tie_Tags_Bytes` holds for every list, and `tie_Tags_Bytes_order` says the
+result is the same for every permutation of the entries, i.e. for every order Go may pick. -/
+
+theorem tie_Tags_Bytes : ∀ t : Option Tags, Fn.Tags_Bytes t = .ok (tagsBytes t) := Proofs.Trans.Tags_Bytes_eq
+theorem tie_Tags_Bytes_order : ∀ {t t' : Tags}, t.Perm t' → (AMap.keys t).Nodup →
+    Fn.Tags_Bytes (some t) = Fn.Tags_Bytes (some t') := Proofs.Trans.Tags_Bytes_order
+-- {"b": "", "a": "1"} in either order ↦ "@a=1;b"
+example : Fn.Tags_Bytes (some [([0x62], []), ([0x61], [0x31])]) = .ok [0x40, 0x61, 0x3D, 0x31, 0x3B, 0x62] := by rfl
+example : Fn.Tags_Bytes (some [([0x61], [0x31]), ([0x62], [])]) = .ok [0x40, 0x61, 0x3D, 0x31, 0x3B, 0x62] := by rfl
+example : Fn.Tags_Bytes none = .ok [] := by rfl
+
+theorem tie_Tags_Len : ∀ t : Option Tags, Fn.Tags_Len t = .ok (tagsLen t : Int) := Proofs.Trans.Tags_Len_eq
+example : Fn.Tags_Len (some [([0x62], []), ([0x61], [0x31])]) = .ok 6 := by rfl
+
+/-- `Tags.writeTo(w io.Writer)` with `w` a `*bytes.Buffer` (a buffer is its contents; `Write` returns `len, nil`):
+    results `(n, err)` and the buffer afterwards. -/
+theorem tie_Tags_writeTo : ∀ (t : Option Tags) (w : Bytes),
+    Fn.Tags_writeTo t w = .ok (((tagsWrite t).length : Int), none, w ++ tagsWrite t) := Proofs.Trans.Tags_writeTo_eq
+example : Fn.Tags_writeTo (some [([0x61], [0x31])]) [0x78] = .ok (5, none, [0x78, 0x40, 0x61, 0x3D, 0x31, 0x20]) := by rfl
+example : Fn.Tags_writeTo (some []) [0x78] = .ok (0, none, [0x78]) := by rfl
+
+/-- `Tags.Set(key, value) error`: results = (error (nil = `none`; the message text is abstracted), the caller's map
+    afterwards). -/
+theorem tie_Tags_Set : ∀ (m : Tags) (key value : Bytes),
+    Fn.Tags_Set (some m) key value = .ok (match tagsSet m key value with
+                                          | some m' => (none, some m')
+                                          | none => (some Go.GoErr.mk, some m)) := Proofs.Trans.Tags_Set_eq
+/-- On a nil map the receiver is re-bound to a fresh map: the caller's map stays nil. -/
+theorem tie_Tags_Set_nil : ∀ key value : Bytes,
+    Fn.Tags_Set none key value = .ok (if (tagsSet [] key value).isSome then none else some Go.GoErr.mk, none) :=
+  Proofs.Trans.Tags_Set_nil
+-- Set("a", "x y") stores `x\sy`; Set("a b", …) is an error and leaves the map alone
+example : Fn.Tags_Set (some []) [0x61] [0x78, 0x20, 0x79] = .ok (none, some [([0x61], [0x78, 0x5C, 0x73, 0x79])]) := by rfl
+example : Fn.Tags_Set (some []) [0x61, 0x20, 0x62] [0x78] = .ok (some Go.GoErr.mk, some []) := by rfl
+example : Fn.Tags_Set none [0x61] [0x78] = .ok (none, none) := by rfl
+
+/-! ### event.go, serialiser side -/
+
+theorem tie_Event_LenOpts : ∀ (e : Event) (includeTags : Bool), Fn.Event_LenOpts (some e) includeTags = .ok (eventLen e : Int) :=
+  Proofs.Trans.Event_LenOpts_eq
+theorem tie_Event_LenOpts_nil : ∀ b : Bool, Fn.Event_LenOpts none b = .error .nilDeref := Proofs.Trans.Event_LenOpts_nil
+theorem tie_Event_Len : ∀ e : Event, Fn.Event_Len (some e) = .ok (eventLen e : Int) := Proofs.Trans.Event_Len_eq
+theorem tie_Event_Len_nil : Fn.Event_Len none = .error .nilDeref := Proofs.Trans.Event_Len_nil
+theorem tie_Event_Bytes : ∀ e : Event, Fn.Event_Bytes (some e) = .ok (eventBytes e) := Proofs.Trans.Event_Bytes_eq
+theorem tie_Event_Bytes_nil : Fn.Event_Bytes none = .error .nilDeref := Proofs.Trans.Event_Bytes_nil
+-- @a=1 :n!u@h PRIVMSG #c :hi\nthere  (the LF is stripped)
+example : Fn.Event_Bytes (some { tags := some [([0x61], [0x31])], source := some ⟨[0x6E], [0x75], [0x68]⟩, command := [0x50, 0x52, 0x49, 0x56, 0x4D, 0x53, 0x47], params := [[0x23, 0x63], [0x68, 0x69, 0x0A, 0x20, 0x74]] }) =
+    .ok [0x40, 0x61, 0x3D, 0x31, 0x20, 0x3A, 0x6E, 0x21, 0x75, 0x40, 0x68, 0x20, 0x50, 0x52, 0x49, 0x56, 0x4D, 0x53, 0x47,
+         0x20, 0x23, 0x63, 0x20, 0x3A, 0x68, 0x69, 0x20, 0x74] := by rfl
+example : Fn.Event_Len (some { tags := some [([0x61], [0x31])], source := some ⟨[0x6E], [0x75], [0x68]⟩, command := [0x50, 0x52, 0x49, 0x56, 0x4D, 0x53, 0x47], params := [[0x23, 0x63], [0x68, 0x69, 0x0A, 0x20, 0x74]] }) =
+    .ok 29 := by rfl
+
+/-! ### event.go, query helpers (models in Model/EventHelpers.lean) -/
+
+theorem tie_Event_Last : ∀ e : Event, Fn.Event_Last (some e) = .ok (eventLast e) := Proofs.Trans.Event_Last_eq
+theorem tie_Event_Last_nil : Fn.Event_Last none = .error .nilDeref := Proofs.Trans.Event_Last_nil
+example : Fn.Event_Last (some { command := [0x58], params := [[0x61], [0x62]] }) = .ok [0x62] := by rfl
+example : Fn.Event_Last (some { command := [0x58], params := [] }) = .ok [] := by rfl
+
+theorem tie_Source_ID : ∀ s : Source, Fn.Source_ID (some s) = .ok (sourceID s) := Proofs.Trans.Source_ID_eq
+theorem tie_Source_ID_nil : Fn.Source_ID none = .error .nilDeref := Proofs.Trans.Source_ID_nil
+theorem tie_Source_Equals : ∀ a b : Option Source, Fn.Source_Equals a b = .ok (sourceEq a b) := Proofs.Trans.Source_Equals_eq
+example : Fn.Source_Equals (some ⟨[0x4E, 0x5B], [0x75], [0x68]⟩) (some ⟨[0x6E, 0x7B], [0x75], [0x68]⟩) = .ok true := by rfl
+example : Fn.Source_Equals none (some ⟨[0x6E], [], []⟩) = .ok false := by rfl
+example : Fn.Source_Equals none none = .ok true := by rfl
+
+theorem tie_Source_IsHostmask : ∀ s : Source, Fn.Source_IsHostmask (some s) = .ok (isHostmask s) :=
+  Proofs.Trans.Source_IsHostmask_eq
+theorem tie_Source_IsHostmask_nil : Fn.Source_IsHostmask none = .error .nilDeref := Proofs.Trans.Source_IsHostmask_nil
+theorem tie_Source_IsServer : ∀ s : Source, Fn.Source_IsServer (some s) = .ok (isServer s) := Proofs.Trans.Source_IsServer_eq
+theorem tie_Source_IsServer_nil : Fn.Source_IsServer none = .error .nilDeref := Proofs.Trans.Source_IsServer_nil
+example : Fn.Source_IsHostmask (some ⟨[0x6E], [0x75], [0x68]⟩) = .ok true := by rfl
+example : Fn.Source_IsServer (some ⟨[0x6E], [], []⟩) = .ok true := by rfl
+
+theorem tie_Event_IsFromChannel : ∀ e : Event, Fn.Event_IsFromChannel (some e) = .ok (isFromChannel e) :=
+  Proofs.Trans.Event_IsFromChannel_eq
+theorem tie_Event_IsFromChannel_nil : Fn.Event_IsFromChannel none = .error .nilDeref := Proofs.Trans.Event_IsFromChannel_nil
+theorem tie_Event_IsFromUser : ∀ e : Event, Fn.Event_IsFromUser (some e) = .ok (isFromUser e) :=
+  Proofs.Trans.Event_IsFromUser_eq
+theorem tie_Event_IsFromUser_nil : Fn.Event_IsFromUser none = .error .nilDeref := Proofs.Trans.Event_IsFromUser_nil
+example : Fn.Event_IsFromChannel (some { source := some ⟨[0x6E], [], []⟩, command := PRIVMSG, params := [[0x23, 0x63], [0x78]] }) =
+    .ok true := by rfl
+example : Fn.Event_IsFromUser (some { source := some ⟨[0x6E], [], []⟩, command := PRIVMSG, params := [[0x23, 0x63], [0x78]] }) =
+    .ok false := by rfl
 
 end Girc.Props.TieWire
